@@ -8,13 +8,20 @@
    variables: the theorems hold for ANY of them ("for any cost function").  About the scalars only a total pre-order is
    assumed (it holds for the reals, C18_feasible_over_the_reals below, and for doubles without NaN), so the statements
    cover rounding: they do not rely on x + frac*dx reaching the bound exactly.
-   _partial: (1) conjugate gradient, L-BFGS and the line search are not in Minim.v; for them the clauses are checked on
-   every run of the harness (exact feasibility of every call-back argument etc.), not proved.  (2) "the call
+   Second model, tie G: generated/Gen_Minim.v lists, for the three bounded drivers and for line_search /
+   line_search_gradient_check, every statement of the CURRENT sources that writes one of the vectors handed to the
+   user's call-backs (translated on every run by tools/gen_minim.py); C18_generated_drivers_are_safe re-checks that no
+   arithmetic update is left without its clamp, and C18_call_back_states_feasible_* conclude, for ANY control flow, that
+   all five algorithms call the user only inside the box.
+   _partial: (1) for conjugate gradient, L-BFGS and the line search only the feasibility clause is a theorem (over the
+   generated atoms, with the assumption SInvokeFree of MinimFlow.v for the line search entered without bounds); their
+   other clauses are checked on every run of the harness, not proved.  (2) "the call
    terminates": C18_outer_loop_terminates_partial bounds the outer loop; the inner loop ends when the damping, doubled
    from its restart value, passes its maximum, which is arithmetic the abstract scalar type does not have; the
    harness observes termination under an alarm. *)
 From Coq Require Import ZArith List Bool.
-From Adept Require Import Scalar Minim MinimProofs MinimReal ExprReal.
+From Adept Require Import Scalar Minim MinimProofs MinimReal ExprReal MinimFlow MinimFlowProofs.
+From AdeptGen Require Import Gen_Minim.
 Import ListNotations.
 Local Open Scope Z_scope.
 
@@ -85,6 +92,38 @@ Print Assumptions C18_invalid_bounds_partial.
 Print Assumptions C18_nonfinite_cost_partial.
 Print Assumptions C18_nonfinite_gradient_partial.
 Print Assumptions C18_unbounded_partial.
+
+(* ---- all five algorithms, from the generated atoms *)
+Definition cg_program : list atom := minimize_conjugate_gradient_bounded_atoms ++ line_search_atoms ++ line_search_gradient_check_atoms.
+Definition lbfgs_program : list atom := minimize_limited_memory_bfgs_bounded_atoms ++ line_search_atoms ++ line_search_gradient_check_atoms.
+Definition lm_program : list atom := minimize_levenberg_marquardt_bounded_atoms.
+(* re-proved against the current sources on every run: every driver clamps x before its first call-back, and no statement
+   updates a state vector arithmetically without clamping it in the next statement; the bounds are passed to every callee *)
+Theorem C18_generated_drivers_are_safe :
+  safe cg_program = true /\ safe lbfgs_program = true /\ safe lm_program = true
+  /\ minimize_conjugate_gradient_bounded_entry_ok = true /\ minimize_limited_memory_bfgs_bounded_entry_ok = true /\ minimize_levenberg_marquardt_bounded_entry_ok = true.
+Proof. exact (conj eq_refl (conj eq_refl (conj eq_refl (conj eq_refl (conj eq_refl eq_refl))))). Qed.
+Section AnyControlFlow.
+Context {T : Type} (O : Ops T).
+Hypothesis le_total : forall a b, oleb O a b = true \/ oleb O b a = true.
+Hypothesis le_trans : forall a b c, oleb O a b = true -> oleb O b c = true -> oleb O a c = true.
+Hypothesis lt_le : forall a b, oltb O a b = negb (oleb O b a).
+(* conjugate gradient (both variants) with the line search: whatever the order and number of times its statements run and
+   whatever the arithmetic produces, every state handed to a call-back is in the box *)
+Theorem C18_call_back_states_feasible_cg_partial : forall lo hi, box_ok O lo hi -> forall tr s s' obs, (forall a, In a tr -> In a cg_program) ->
+  all_within O lo hi s -> exec O lo hi s tr s' obs -> Forall (within O lo hi) obs /\ all_within O lo hi s'.
+Proof. exact (fun lo hi Hb tr s s' obs => program_safe O le_total lt_le lo hi Hb cg_program tr s s' obs (proj1 C18_generated_drivers_are_safe)). Qed.
+Theorem C18_call_back_states_feasible_lbfgs_partial : forall lo hi, box_ok O lo hi -> forall tr s s' obs, (forall a, In a tr -> In a lbfgs_program) ->
+  all_within O lo hi s -> exec O lo hi s tr s' obs -> Forall (within O lo hi) obs /\ all_within O lo hi s'.
+Proof. exact (fun lo hi Hb tr s s' obs => program_safe O le_total lt_le lo hi Hb lbfgs_program tr s s' obs (proj1 (proj2 C18_generated_drivers_are_safe))). Qed.
+Theorem C18_call_back_states_feasible_lm_partial : forall lo hi, box_ok O lo hi -> forall tr s s' obs, (forall a, In a tr -> In a lm_program) ->
+  all_within O lo hi s -> exec O lo hi s tr s' obs -> Forall (within O lo hi) obs /\ all_within O lo hi s'.
+Proof. exact (fun lo hi Hb tr s s' obs => program_safe O le_total lt_le lo hi Hb lm_program tr s s' obs (proj1 (proj2 (proj2 C18_generated_drivers_are_safe)))). Qed.
+End AnyControlFlow.
+Print Assumptions C18_generated_drivers_are_safe.
+Print Assumptions C18_call_back_states_feasible_cg_partial.
+Print Assumptions C18_call_back_states_feasible_lbfgs_partial.
+Print Assumptions C18_call_back_states_feasible_lm_partial.
 
 (* the order hypotheses are met by the real numbers: feasibility for every real cost function *)
 Theorem C18_feasible_over_the_reals_partial : forall cost grad hess solve norm2 isfinite ofnat,
